@@ -128,6 +128,7 @@ def _worker(states):
             continue
         out['cases'] += 1
         o = st['pred']
+        out['amb'] = out.get('amb', 0) + bool(o['amb'])
         spec = st['spec']
         out['nontrivial'] += nontrivial(spec)
         cnt = out['by_op'].setdefault(st['mode'] + ':' + spec['op'], [0, 0, 0])
@@ -174,7 +175,8 @@ def record(check, n, seed):
         inputs.append((mode, B.normalize(G.gen_tree(rng, mode, rng.randint(1, 5), [0])), [G.rand_target(rng) for _ in range(k)]))
     rows = [r for rs in B.pmap(record_rows, inputs) for r in rs
             if not (r['obs']['ok'] and 'opaque' in json.dumps(r['obs']['v']))]
-    rejects = vlib.validate_rows(check, 'Trace_C10', rows, 'random-trees', chunk=4000)
+    rejects, skipped = B.validate_rows(check, 'Trace_C10', rows, 'random-trees')
+    check.extra['recorded_rows_not_judged_order_dependent'] = skipped
     for row, rej in rejects:
         row['_rejected'] = True
         check.violation(dict(kind='code->spec', row=row, clause=rej['clause']),
@@ -258,7 +260,7 @@ def main(tier, seed):
     res, results = vlib.map_states('MC_C10', worker, constants=consts)
     check.add_tlc(res, 'MC_C10 %s' % consts)
     tot = dict(cases=0, ok=0, fail=0, foreign=0, opform=0, checks=0)
-    nctor = nreused = 0
+    nctor = nreused = namb = 0
     by_op = {}
     for r in results:
         if 'error' in r:
@@ -267,6 +269,7 @@ def main(tier, seed):
         check.cov['distinct_nontrivial'] += r['nontrivial']
         check.validated(r['cases'] + r.get('ctor', 0) + r.get('reused', 0) - len(r['bad']))
         nctor += r.get('ctor', 0)
+        namb += r.get('amb', 0)
         nreused += r.get('reused', 0)
         for k in tot:
             tot[k] += r[k]
@@ -281,6 +284,7 @@ def main(tier, seed):
     check.extra['cases'] = dict(total=tot['cases'], predicted_success=tot['ok'], predicted_failure=tot['fail'],
                                 foreign_error=tot['foreign'], with_operator_forms=tot['opform'], check_cases=tot['checks'])
     check.extra['cases']['constructor_cases'] = nctor
+    check.extra['cases']['not_compared_order_dependent'] = namb
     check.extra['cases']['spec_object_reused_cases'] = nreused
     if nreused == 0:
         problems.append('no reuse cases')
